@@ -561,7 +561,7 @@ func runC18(c *Ctx) {
 				CallTrueEdges(addEdge, func(call *ssa.Call) bool {
 					return call.Call.StaticCallee() == itd && len(call.Call.Args) == 1 && call.Call.Args[0] == ssa.Value(addEdge.Params[1])
 				}))
-			t, path := PathAvoiding(addEdge, addEdge.Blocks[0].Instrs[0], isRet, func(in ssa.Instruction) bool { return in == upd }, skip)
+			t, path := PathAvoiding(addEdge, nil, isRet, func(in ssa.Instruction) bool { return in == upd }, skip)
 			c.Check(FuncKey(addEdge)+"::edge-omitted-only-if-target-transitively-done", addEdge.Pos(), t == nil && len(skip) >= 2, "addEdge may drop the edge x→y only when x == y or y is transitively done; dropping it for a y that is merely done lets x.wait() return while y's own dependencies are still being built; path that returns without the edge: %s", PathString(addEdge, path))
 		}
 		// (3)-(5) wait
